@@ -9,6 +9,8 @@
 #include <ctype.h>
 #include <setjmp.h>
 #include <signal.h>
+#include <sys/mman.h>
+#include <sys/wait.h>
 #include "harness_common.h"
 #include "netsim.h"
 #include "refmd5.h"
@@ -45,6 +47,7 @@ static const ccell CELLS[] = {
 #define NCELLS ((int)(sizeof CELLS / sizeof CELLS[0]))
 
 /* ---------------------------------------------------------------- state of the run */
+static int tunw_count;
 static int in_child;                 /* a substitution has been made in this process */
 static int answer_no;                /* answers on their way to the client so far */
 static int recent_ids[3];            /* DNS ids of the client's three latest queries */
@@ -71,6 +74,34 @@ static int server_written(unsigned char *out, const unsigned char *payload, int 
 	if (wlen <= 0) return -1;
 	memcpy(out, wbuf, wlen);
 	return wlen;
+}
+
+/* ---------------------------------------------------------------- "ignored means ignored": prefill experiment
+ * An answer that does not match the client's latest queries must have no influence at all - also not through what it
+ * leaves behind in the client's buffers.  At every answer a child first delivers an UNMATCHED answer (foreign DNS id)
+ * carrying a long payload of a chosen filler, then the honest answer; the run continues honestly and must end in
+ * exactly the state of the run without the extra datagram. */
+#define NPRE 10
+static const struct { int ch; int len; const char *d; } PRE[NPRE] = { { '9', 64, "64 x '9'" }, { '9', 700, "700 x '9'" }, { 'A', 64, "64 x 'A'" }, { 0xff, 64, "64 x 0xff" }, { 0xff, 700, "700 x 0xff" },
+	{ '-', 64, "64 x '-'" }, { 0, 64, "64 zero bytes" }, { 'a', 300, "300 x 'a'" }, { '0', 40, "40 x '0'" }, { 0x80, 200, "200 x 0x80" } };
+static uint64_t *REFHASH;          /* shared: final-state hash of the honest run, per job */
+static int prefill_kind = -1;
+
+static uint64_t final_state(int rc)
+{
+	h128 h; uint64_t o[2];
+	h128_init(&h);
+	h128_update(&h, &rc, sizeof rc);
+	int v[8] = { ca_w_qtype(), ca_w_downenc(), ca_w_lazymode(), ca_w_conn(), ca_w_userid(), W.proc[1].state, W.proc[1].exit_code, tunw_count };
+	h128_update(&h, v, sizeof v);
+	const char *dn = ca_w_dataenc_name(); h128_update(&h, dn, strlen(dn));
+	struct tun_user *u = s_w_users();
+	int sv[6] = { u[0].fragsize, u[0].downenc, u[0].lazy, u[0].conn, u[0].authenticated, u[0].authenticated_raw };
+	h128_update(&h, sv, sizeof sv);
+	for (int i = 0; i < W.proc[1].nsys; i++) h128_update(&h, W.proc[1].sys[i], strlen(W.proc[1].sys[i]));
+	for (int i = 0; i < ns_nwr; i++) { h128_update(&h, &ns_wr[i].proc, 4); h128_update(&h, &ns_wr[i].h0, 8); }
+	h128_final(&h, o);
+	return o[0] | 1;
 }
 
 /* ---------------------------------------------------------------- the hostile menu */
@@ -235,7 +266,6 @@ static void get_cstate(cstate *c)
 	h128_update(&h, i->data, n);
 	h128_final(&h, c->h);
 }
-static int tunw_count;
 static void mon_tunw(int proc, const unsigned char *data, int len, int matched) { (void)data; (void)len; (void)matched; if (proc == 1) { tunw_count++; xp_count(K_TUNW, 1); } }
 
 static void my_on_send(int d)
@@ -276,14 +306,32 @@ static void on_callback(int slot, int b)
 		int israw = g->len >= 3 && g->data[0] == 0x10 && g->data[1] == 0xd1 && g->data[2] == 0x9e;
 		char de = s_w_users()[0].downenc ? s_w_users()[0].downenc : 'T';
 		if (israw) raw_menu(g->data, g->len); else build_menu(g->data, g->len, de);
-		for (int i = cur_part; i < nmenu; i += NPART) {
+		for (int i = cur_part; i < nmenu + (israw ? 0 : NPRE); i += NPART) {
 			if (xp_fork_wait() != 0) continue;
-			/* child: deliver the hostile item instead of the honest answer, then carry on honestly */
+			/* child */
 			in_child = 1;
 			XC.path[0].cp = answer_no; XC.path[0].alt = i; XC.npath = 1;
+			alarm(60);
+			if (i >= nmenu) {
+				/* prefill: an unmatched answer with a long payload first, then the honest answer */
+				static unsigned char pl[1000], out[70000];
+				int k = i - nmenu;
+				memset(pl, PRE[k].ch, PRE[k].len);
+				int n = server_written(out, pl, PRE[k].len, de);
+				prefill_kind = k;
+				snprintf(cur_desc, sizeof cur_desc, "%s, before answer #%d (to query id %d) an unmatched answer (foreign DNS id) carrying %s is delivered", CELLS[cur_cell].name, answer_no, recent_ids[0], PRE[k].d);
+				xp_count(K_UNMATCHED_CHECKS, 1);
+				if (n > 0) {
+					int nid = ((out[0] << 8) | out[1]) ^ 0x5a5a;
+					while (id_is_recent(nid)) nid = (nid + 1) & 0xffff;
+					out[0] = nid >> 8; out[1] = nid;
+					deliver_to_client(out, n);
+					vw_run_quiescent(0);
+				}
+				break;          /* fall through to the honest delivery below */
+			}
 			snprintf(cur_desc, sizeof cur_desc, "%s, answer #%d (%d bytes, to query id %d) replaced by: %s", CELLS[cur_cell].name, answer_no, g->len, recent_ids[0], MENU[i].desc);
 			xp_count(K_SUBST, 1);
-			alarm(60);
 			cstate before, after; int tw0 = tunw_count;
 			if (MENU[i].unmatched) get_cstate(&before);
 			deliver_to_client(MENU[i].d, MENU[i].len);
@@ -298,16 +346,26 @@ static void on_callback(int slot, int b)
 			}
 			return;
 		}
-		if (xp_expired()) __atomic_fetch_add(&XS->incomplete, 1, __ATOMIC_RELAXED);
-		xp_count(K_ANSWERS, 1);
+		if (!in_child) { if (xp_expired()) __atomic_fetch_add(&XS->incomplete, 1, __ATOMIC_RELAXED); xp_count(K_ANSWERS, 1); }
 	}
 	if (XC.replay && !in_child && XC.npath && XC.path[0].cp == answer_no) {
 		int israw = g->len >= 3 && g->data[0] == 0x10 && g->data[1] == 0xd1 && g->data[2] == 0x9e;
 		char de = s_w_users()[0].downenc ? s_w_users()[0].downenc : 'T';
 		if (israw) raw_menu(g->data, g->len); else build_menu(g->data, g->len, de);
 		int i = XC.path[0].alt;
-		if (i >= nmenu) { dprintf(1, "HARNESS-ERROR replay menu item out of range\n"); _exit(2); }
+		if (i >= nmenu + NPRE) { dprintf(1, "HARNESS-ERROR replay menu item out of range\n"); _exit(2); }
 		in_child = 1;
+		if (i >= nmenu) {
+			static unsigned char pl[1000], out[70000];
+			int k = i - nmenu;
+			memset(pl, PRE[k].ch, PRE[k].len);
+			int n = server_written(out, pl, PRE[k].len, de);
+			prefill_kind = k;
+			snprintf(cur_desc, sizeof cur_desc, "%s, before answer #%d (to query id %d) an unmatched answer (foreign DNS id) carrying %s is delivered", CELLS[cur_cell].name, answer_no, recent_ids[0], PRE[k].d);
+			printf("replay: %s\n", cur_desc);
+			if (n > 0) { int nid = ((out[0] << 8) | out[1]) ^ 0x5a5a; while (id_is_recent(nid)) nid = (nid + 1) & 0xffff; out[0] = nid >> 8; out[1] = nid; deliver_to_client(out, n); vw_run_quiescent(0); }
+			goto honest;
+		}
 		snprintf(cur_desc, sizeof cur_desc, "%s, answer #%d (%d bytes, to query id %d) replaced by: %s", CELLS[cur_cell].name, answer_no, g->len, recent_ids[0], MENU[i].desc);
 		printf("replay: %s\n", cur_desc);
 		cstate before, after; int tw0 = tunw_count;
@@ -321,6 +379,7 @@ static void on_callback(int slot, int b)
 		}
 		return;
 	}
+honest:;
 	/* honest delivery */
 	int si = vw_sock_find(&g->dst);
 	if (si < 0) { vw_dgram_free(d); return; }
@@ -340,7 +399,13 @@ static void job(int j)
 	const ccell *c = &CELLS[cur_cell];
 	ns_cfg cfg; ns_defaults(&cfg);
 	cfg.qtype = c->qtype; cfg.downenc = c->downenc; cfg.lazy = c->lazy; cfg.raw = c->raw; cfg.fragsize = c->fragsize;
-	in_child = 0; answer_no = 0; cur_desc[0] = 0; memset(HELD, 0, sizeof HELD); tunw_count = 0;
+	in_child = 0; answer_no = 0; cur_desc[0] = 0; memset(HELD, 0, sizeof HELD); tunw_count = 0; prefill_kind = -1;
+	int is_reference = 0;
+	if (!XC.replay) {
+		/* reference: the honest run without any choice point, in a child; its final state goes to shared memory */
+		REFHASH[j] = 0;
+		if (xp_fork_wait() == 0) { in_child = 1; is_reference = 1; }
+	}
 	ns_install_hooks = install;
 	ns_mon_tun_write = mon_tunw;
 	signal(SIGALRM, on_alarm);
@@ -357,6 +422,18 @@ static void job(int j)
 	} else xp_count(K_HS_FAIL, 1);
 	if (!vw_alive(1) && W.proc[1].state == VW_P_EXITED) xp_count(K_CLIENT_EXIT, 1);
 	alarm(0);
+	if (is_reference) { REFHASH[j] = final_state(rc); xp_child_exit(); }
+	if (prefill_kind >= 0 && !XC.replay) {
+		if (!REFHASH[j]) vw_fatal("no reference state for job %d", j);
+		if (final_state(rc) != REFHASH[j])
+			viol("ignored-reply-influenced-the-client", "%s, then the honest answer: the run ends in a different state than without the extra datagram (handshake result %d, type %d, downstream '%c', upstream %s, client state %d exit %d, %d tun writes, commands run: %d)",
+			     cur_desc, rc, ca_w_qtype(), ca_w_downenc() > ' ' ? ca_w_downenc() : '-', ca_w_dataenc_name(), W.proc[1].state, W.proc[1].exit_code, tunw_count, W.proc[1].nsys);
+	}
+	if (prefill_kind >= 0 && XC.replay) {
+		/* replay: compute the reference in this process tree first (fork), then compare */
+		printf("replay: final state %016llx (handshake result %d, client state %d exit %d, %d tun writes)\n", (unsigned long long)final_state(rc), rc, W.proc[1].state, W.proc[1].exit_code, tunw_count);
+		if (REFHASH[j] && final_state(rc) != REFHASH[j]) viol("ignored-reply-influenced-the-client", "%s: final state differs from the honest run", cur_desc);
+	}
 	xp_outcome(((uint64_t)cur_cell << 40) ^ ((uint64_t)(rc & 0xff) << 32) ^ ((uint64_t)W.proc[1].state << 24) ^ ((uint64_t)(W.proc[1].exit_code & 0xff) << 16) ^ (uint64_t)(tunw_count & 0xff) ^ ((uint64_t)in_child << 50));
 	if (!in_child && cur_part == 0) xp_sample("%s: honest run has %d answers on their way to the client (handshake result %d); each is replaced by every item of a menu built from it (e.g. %d items for the last answer)", c->name, answer_no, rc, nmenu);
 	__atomic_fetch_add(&XS->execs, 1, __ATOMIC_RELAXED);
@@ -371,7 +448,16 @@ int main(int argc, char **argv)
 	{ const struct encoder *e[4] = { &s_base32_ops, &s_base64_ops, &s_base64u_ops, &s_base128_ops }; for (int k = 0; k < 4; k++) ref_calibrate(k, e[k]->encode); }
 	xp_describe_job = describe_job;
 	xp_init("C06", a.tier, 1024, a.budget_s);
-	if (a.replay) { int j = xp_load_replay(a.replay); job(j); return 0; }
+	REFHASH = mmap(NULL, sizeof(uint64_t) * 4096, PROT_READ | PROT_WRITE, MAP_SHARED | MAP_ANONYMOUS, -1, 0);
+	if (a.replay) {
+		int j = xp_load_replay(a.replay);
+		/* the honest reference first (in a child, without following the recorded choice) */
+		pid_t pid = fork();
+		if (pid == 0) { XC.replay = 0; XC.npath = 0; in_child = 1; NPART = 1 << 30; /* no forking: partitions beyond every menu */
+			cur_cell = j / 16; cur_part = 1 << 29; job(j); _exit(0); }
+		int st; waitpid(pid, &st, 0);
+		job(j); return 0;
+	}
 	hc_quiet();
 	int ncells = thorough ? NCELLS : 4;
 	xp_run_jobs(ncells * NPART, job, a.workers);
